@@ -25,12 +25,18 @@ Definition good {A} (m : nat) (s : dstate) (r : res A) : Prop :=
 Lemma consumes_refl s : consumes 0 s s.
 Proof. exists 0%nat. cbn [skipn]. repeat split; try lia. Qed.
 
+Lemma skipn_skipn' {A} (a b : nat) (l : list A) : skipn a (skipn b l) = skipn (b + a) l.
+Proof.
+  revert l. induction b as [|b IH]; intros l; [reflexivity|].
+  destruct l as [|x l]; [rewrite !skipn_nil; reflexivity|]. cbn [skipn Nat.add]. apply IH.
+Qed.
+
 Lemma consumes_trans m1 m2 s1 s2 s3 : consumes m1 s1 s2 -> consumes m2 s2 s3 -> consumes (m1 + m2) s1 s3.
 Proof.
   intros [k1 [Hk1 [Hi1 [Hr1 [Hp1 Ha1]]]]] [k2 [Hk2 [Hi2 [Hr2 [Hp2 Ha2]]]]].
   exists (k1 + k2)%nat. rewrite Hi1 in *. rewrite skipn_length in Hk2.
   repeat split; try lia.
-  - rewrite Hi2. rewrite skipn_skipn. f_equal. lia.
+  - rewrite Hi2. rewrite skipn_skipn'. reflexivity.
 Qed.
 
 Lemma consumes_weaken m m' s s' : (m' <= m)%nat -> consumes m s s' -> consumes m' s s'.
@@ -164,4 +170,281 @@ Proof.
   destruct (header_tags c fuel (n - 1) s') as [r s''| | | |]; cbn [good] in *; try exact IH; try exact I.
   apply (consumes_weaken (2 + 0) 0); [lia|]. eapply consumes_trans; eassumption.
 Qed.
+
+Lemma marker_loop_good : forall fuel n s, small s -> (length (d_in s) + 1 <= length fuel)%nat ->
+  good 0 s (marker_loop c fuel n s).
+Proof.
+  induction fuel as [|f0 fuel IH]; intros n s Hs Hf; [cbn [length] in Hf; lia|].
+  cbn [marker_loop].
+  destruct (Z.leb n 0); [cbn [good]; apply consumes_refl|].
+  pose proof (skip_step_good s Hs) as Hstep.
+  destruct (skip_header_tags_step c s) as [u s'| | | |]; cbn [good] in *; try exact Hstep; try exact I.
+  assert (Hf' : (length (d_in s') + 1 <= length fuel)%nat).
+  { destruct Hstep as [k [Hk [Hi _]]]. rewrite Hi, skipn_length. cbn [length] in Hf. lia. }
+  specialize (IH (n - 1)%Z s' (consumes_small _ _ _ Hstep Hs) Hf').
+  destruct (marker_loop c fuel (n - 1) s') as [r s''| | | |]; cbn [good] in *; try exact IH; try exact I.
+  apply (consumes_weaken (2 + 0) 0); [lia|]. eapply consumes_trans; eassumption.
+Qed.
+
+Lemma dec_tag_from_in (D : ty -> dstate -> res value) id s : forall l i j r,
+  dec_tag_from D id s l i = Some (j, r) -> exists p, In p l /\ r = D (snd p) s.
+Proof.
+  induction l as [|[k ft] l IH]; intros i j r H; cbn [dec_tag_from] in H; [discriminate|].
+  destruct (dec_tag_from D id s l (S i)) as [[j' r']|] eqn:E.
+  - injection H as <- <-. destruct (IH _ _ _ E) as [p [Hp Hr]]. exists p. split; [right; exact Hp|exact Hr].
+  - destruct (Z.eqb k id); [|discriminate]. injection H as <- <-.
+    exists (k, ft). split; [left; reflexivity|reflexivity].
+Qed.
+
+Lemma tag_loop_good (D : ty -> dstate -> res value) tagged fs :
+  Forall (fun p => forall s, small s -> good 0 s (D (snd p) s)) tagged ->
+  forall fuel n ts s, small s -> (length (d_in s) + 1 <= length fuel)%nat ->
+    good 0 s (tag_loop c D tagged fs fuel n ts s).
+Proof.
+  intros HD. induction fuel as [|f0 fuel IH]; intros n ts s Hs Hf; [cbn [length] in Hf; lia|].
+  cbn [tag_loop].
+  destruct (Z.leb n 0); [cbn [good]; apply consumes_refl|].
+  set (step := bind (read_uvarint s) _).
+  assert (Hstep : good 2 s step).
+  { unfold step. replace 2%nat with (1 + (1 + 0))%nat by lia.
+    apply good_bind; [apply read_uvarint_good|]. intros tagid s1 H1.
+    apply good_bind; [apply read_uvarint_good|]. intros size s2 H2.
+    assert (Hs2 : small s2) by (eapply consumes_small; [exact H2|eapply consumes_small; eassumption]).
+    destruct (dec_tag_from D (int_of_u64 tagid) s2 tagged 0) as [[i r]|] eqn:E.
+    - destruct (dec_tag_from_in D _ _ _ _ _ _ E) as [p [Hp ->]].
+      rewrite Forall_forall in HD. specialize (HD p Hp s2 Hs2).
+      replace 0%nat with (0 + 0)%nat by lia. apply good_bind; [exact HD|].
+      intros v s3 _. cbn [good]. apply consumes_refl.
+    - replace 0%nat with (0 + 0)%nat by lia. apply good_bind; [apply read_alloc_good0; exact Hs2|].
+      intros v s3 _. cbn [good]. apply consumes_refl. }
+  destruct step as [ts' s'| | | |]; cbn [good] in *; try exact Hstep; try exact I.
+  assert (Hf' : (length (d_in s') + 1 <= length fuel)%nat).
+  { destruct Hstep as [k [Hk [Hi _]]]. rewrite Hi, skipn_length. cbn [length] in Hf. lia. }
+  specialize (IH (n - 1)%Z ts' s' (consumes_small _ _ _ Hstep Hs) Hf').
+  destruct (tag_loop c D tagged fs fuel (n - 1) ts' s') as [r s''| | | |]; cbn [good] in *; try exact IH; try exact I.
+  apply (consumes_weaken (2 + 0) 0); [lia|]. eapply consumes_trans; eassumption.
+Qed.
+
+Lemma dec_fields_good (D : ty -> dstate -> res value) : forall fields,
+  Forall (fun t => forall s, small s -> good (N.to_nat (min_size flex t)) s (D t s)) fields ->
+  forall s, small s -> good (N.to_nat (min_fields flex fields)) s (dec_fields D fields s).
+Proof.
+  induction fields as [|ft tr IH]; intros HF s Hs.
+  - cbn [dec_fields min_fields good]. apply consumes_refl.
+  - apply Forall_cons_iff in HF as [Hx HF]. cbn [dec_fields min_fields].
+    replace (N.to_nat (min_size flex ft + min_fields flex tr))
+      with (N.to_nat (min_size flex ft) + (N.to_nat (min_fields flex tr) + 0))%nat by lia.
+    apply good_bind; [apply Hx; exact Hs|]. intros v s1 H1.
+    apply good_bind; [apply IH; [exact HF|eapply consumes_small; eassumption]|].
+    intros vs s2 _. cbn [good]. apply consumes_refl.
+Qed.
+
+Theorem decode_good : forall t, schema_ok flex t = true ->
+  forall s, small s -> good (N.to_nat (min_size flex t)) s (decode c flex t s).
+Proof.
+  induction t as [| w | | n | n | n e t IH | fields tagged IHf IHt | | r] using ty_ind'; intros Hok s Hs.
+  - cbn [decode min_size]. replace (N.to_nat 1) with (1 + 0)%nat by lia.
+    apply good_bind; [apply read_n_good|]. intros bs s1 _. cbn [good]. apply consumes_refl.
+  - cbn [decode min_size]. rewrite Nat2N.id. replace w with (w + 0)%nat at 1 by lia.
+    apply good_bind; [apply read_int_good|]. intros z s1 _. cbn [good]. apply consumes_refl.
+  - cbn [decode min_size]. replace (N.to_nat 8) with (8 + 0)%nat by lia.
+    apply good_bind; [apply read_n_good|]. intros bs s1 _. cbn [good]. apply consumes_refl.
+  - cbn [decode min_size]. destruct flex.
+    + replace (N.to_nat 1) with (1 + 0)%nat by lia.
+      apply good_bind; [apply read_uvarint_good|]. intros x s1 Hc1.
+      destruct (N.ltb x 1); [cbn [good]; apply consumes_refl|].
+      replace 0%nat with (0 + 0)%nat by lia.
+      apply good_bind; [apply read_alloc_good0; eapply consumes_small; eassumption|].
+      intros bs s2 _. cbn [good]. apply consumes_refl.
+    + replace (N.to_nat 2) with (2 + 0)%nat by lia.
+      apply good_bind; [apply read_int_good|]. intros x s1 Hc1.
+      destruct (Z.ltb x 0); [cbn [good]; apply consumes_refl|].
+      replace 0%nat with (0 + 0)%nat by lia.
+      apply good_bind; [apply read_alloc_good0; eapply consumes_small; eassumption|].
+      intros bs s2 _. cbn [good]. apply consumes_refl.
+  - cbn [decode min_size]. destruct flex.
+    + replace (N.to_nat 1) with (1 + 0)%nat by lia.
+      apply good_bind; [apply read_uvarint_good|]. intros x s1 Hc1.
+      destruct (N.ltb x 1); [cbn [good]; apply consumes_refl|].
+      replace 0%nat with (0 + 0)%nat by lia.
+      apply good_bind; [apply read_alloc_good0; eapply consumes_small; eassumption|].
+      intros bs s2 _. cbn [good]. apply consumes_refl.
+    + replace (N.to_nat 4) with (4 + 0)%nat by lia.
+      apply good_bind; [apply read_int_good|]. intros x s1 Hc1.
+      destruct (Z.ltb x 0); [cbn [good]; apply consumes_refl|].
+      replace 0%nat with (0 + 0)%nat by lia.
+      apply good_bind; [apply read_alloc_good0; eapply consumes_small; eassumption|].
+      intros bs s2 _. cbn [good]. apply consumes_refl.
+  - (* arrays *)
+    cbn [schema_ok] in Hok. repeat (apply andb_true_iff in Hok as [Hok ?]).
+    assert (Helem : forall s, small s -> good 1 s (decode c flex t s)).
+    { intros s0 Hs0. eapply good_weaken; [|apply IH; assumption]. lia. }
+    assert (Hbody : forall nn s0, small s0 -> (0 <= nn)%Z -> (nn <= d_remain s0)%Z ->
+              good 0 s0 (bind (alloc c nn e s0) (fun _ s1 =>
+                          bind (elems_loop (decode c flex t) (0%N :: d_in s1) (Z.to_N nn) s1)
+                            (fun r s2 => Ok (VArray (Some (fst r)) (snd r)) s2)))).
+    { intros nn s0 Hs0 Hn0 Hn1.
+      replace 0%nat with (0 + (0 + 0))%nat by lia.
+      apply good_bind; [apply alloc_good; try assumption; lia|]. intros _ s1 Hc1.
+      apply good_bind; [apply elems_loop_good; [exact Helem|eapply consumes_small; eassumption|cbn [length]; lia]|].
+      intros r s2 _. cbn [good]. apply consumes_refl. }
+    rewrite decode_array_eq. cbv zeta. cbn [min_size]. destruct flex.
+    + replace (N.to_nat 1) with (1 + 0)%nat by lia.
+      apply good_bind; [apply read_uvarint_good|]. intros x s1 Hc1.
+      destruct (N.ltb x 1); [cbn [good]; apply consumes_refl|].
+      destruct (Z.ltb_spec (d_remain s1) 0); [exact I|].
+      destruct (Z.ltb_spec (d_remain s1) (Z.of_N (x - 1))); [exact I|]. cbn [orb].
+      apply Hbody; [eapply consumes_small; eassumption|lia|lia].
+    + replace (N.to_nat 4) with (4 + 0)%nat by lia.
+      apply good_bind; [apply read_int_good|]. intros x s1 Hc1.
+      destruct (Z.ltb_spec x 0); [cbn [good]; apply consumes_refl|].
+      destruct (Z.ltb_spec (d_remain s1) x); [exact I|].
+      apply Hbody; [eapply consumes_small; eassumption|lia|lia].
+  - (* structs *)
+    rewrite schema_ok_struct_eq in Hok. repeat (apply andb_true_iff in Hok as [Hok ?]).
+    rewrite decode_struct_eq, min_size_struct_eq.
+    assert (HF : Forall (fun t0 => forall s0, small s0 -> good (N.to_nat (min_size flex t0)) s0 (decode c flex t0 s0)) fields).
+    { clear - Hok IHf. induction IHf as [|x r Hx _ IHr]; [constructor|].
+      cbn [ok_fields] in Hok. apply andb_true_iff in Hok as [Hok Hr]. apply andb_true_iff in Hok as [_ Hsx].
+      constructor; [intros s0 Hs0; apply Hx; assumption|apply IHr; exact Hr]. }
+    assert (HT : Forall (fun p => forall s0, small s0 -> good 0 s0 (decode c flex (snd p) s0)) tagged).
+    { match goal with H : ok_tags flex tagged = true |- _ => rename H into Htags end.
+      clear - Htags IHt. induction IHt as [|[i x] r Hx _ IHr]; [constructor|].
+      cbn [ok_tags] in Htags. apply andb_true_iff in Htags as [Htags Hr]. apply andb_true_iff in Htags as [_ Hsx].
+      constructor; [|apply IHr; exact Hr].
+      cbn [snd] in *. intros s0 Hs0. eapply good_weaken; [|apply Hx; assumption]. lia. }
+    replace (N.to_nat (min_fields flex fields + (if flex then 1 else 0)))
+      with (N.to_nat (min_fields flex fields) + (if flex then 1 else 0))%nat by (destruct flex; lia).
+    apply good_bind; [apply dec_fields_good; assumption|]. intros fs s1 Hc1.
+    destruct flex; cbn [negb].
+    + replace 1%nat with (1 + 0)%nat by lia.
+      apply good_bind; [apply read_uvarint_good|]. intros cnt s2 Hc2.
+      apply tag_loop_good; [exact HT| |cbn [length]; lia].
+      eapply consumes_small; [exact Hc2|eapply consumes_small; eassumption].
+    + cbn [good]. apply consumes_refl.
+  - rewrite decode_marker_eq. cbn [min_size]. destruct flex; cbn [negb].
+    + replace (N.to_nat 1) with (1 + 0)%nat by lia.
+      apply good_bind; [apply read_uvarint_good|]. intros cnt s1 Hc1.
+      apply marker_loop_good; [eapply consumes_small; eassumption|cbn [length]; lia].
+    + cbn [good]. apply consumes_refl.
+  - cbn [decode min_size]. replace (N.to_nat 4) with (4 + 0)%nat by lia.
+    apply good_bind; [apply read_int_good|]. intros x s1 Hc1.
+    destruct (Z.ltb x 0); [cbn [good]; apply consumes_refl|].
+    replace 0%nat with (0 + 0)%nat by lia.
+    apply good_bind; [apply read_alloc_good0; eapply consumes_small; eassumption|].
+    intros bs s2 _. cbn [good]. apply consumes_refl.
+Qed.
 End Total.
+
+(* ---- whole responses ---- *)
+Lemma Forall_firstn' {A} (P : A -> Prop) n : forall l, Forall P l -> Forall P (firstn n l).
+Proof.
+  induction n as [|n IH]; intros l H; [constructor|].
+  destruct l as [|x l]; [constructor|]. apply Forall_cons_iff in H as [Hx Hl].
+  cbn [firstn]. constructor; [exact Hx|apply IH; exact Hl].
+Qed.
+
+Lemma get_bes4_range bs : bytes_ok bs -> length bs = 4%nat -> (- ZM31 <= get_bes 4 bs < ZM31)%Z.
+Proof.
+  intros Hok Hl. unfold get_bes. pose proof (get_be_lt bs Hok 0) as Hlt. rewrite Hl in Hlt.
+  change (pow256 4) with 4294967296%N in *. change (4294967296 / 2)%N with 2147483648%N. unfold ZM31.
+  destruct (N.ltb_spec (get_be bs 0) 2147483648); lia.
+Qed.
+
+Theorem read_response_total c flex t input :
+  schema_ok flex t = true -> bytes_ok input ->
+  match read_response c flex t input with
+  | Ok _ s' =>
+      exists size, (4 <= length input)%nat /\ size = get_bes 4 (firstn 4 input) /\ (4 <= size)%Z /\
+        (4 + size <= Z.of_nat (length input))%Z /\
+        d_in s' = skipn (4 + Z.to_nat size) input /\ d_remain s' = 0%Z
+  | Err _ _ _ => True
+  | Oom => True
+  | Panic => False
+  | OutOfFuel => False
+  end.
+Proof.
+  intros Hok Hbytes. unfold read_response.
+  (* the size prefix *)
+  unfold read_int at 1. unfold read_n, read_z. cbn [d_remain d_in d_alloc].
+  change (Z.of_nat 4 <=? 0)%Z with false. change (4 <=? 0)%Z with false. cbv iota.
+  change (Z.min (Z.of_nat 4) 4) with 4%Z.
+  destruct (Z.ltb_spec (Z.of_nat (length input)) 4) as [Hshort|Hlen]; [exact I|].
+  change (4 <? Z.of_nat 4)%Z with false. cbv iota. cbn [bind d_in d_alloc].
+  change (Z.to_nat (Z.of_nat 4)) with 4%nat.
+  set (size := get_bes 4 (firstn 4 input)).
+  assert (Hsize : (- ZM31 <= size < ZM31)%Z).
+  { apply get_bes4_range; [apply Forall_firstn'; exact Hbytes|rewrite firstn_length; lia]. }
+  set (s1 := {| d_in := skipn 4 input; d_remain := size; d_alloc := 0 |}).
+  assert (Hs1 : small s1) by (unfold small, s1; cbn; lia).
+  (* everything before the final discardAll *)
+  set (A := bind (read_int 4 s1) (fun corr s =>
+              bind (if flex
+                    then bind (read_uvarint s) (fun cnt s0 => header_tags c (0%N :: 0%N :: d_in s0) (int_of_u64 cnt) s0)
+                    else Ok tt s) (fun _ s0 => bind (decode c flex t s0) (fun v s2 => Ok (corr, v) s2)))).
+  assert (HA : good 4 s1 A).
+  { unfold A. replace 4%nat with (4 + (0 + (0 + 0)))%nat by lia.
+    apply good_bind; [apply read_int_good|]. intros corr s2 H2.
+    assert (Hs2 : small s2) by (eapply consumes_small; eassumption).
+    apply good_bind.
+    - destruct flex; [|cbn [good]; apply consumes_refl].
+      replace 0%nat with (0 + 0)%nat by lia. eapply good_weaken with (m := (1 + 0)%nat); [lia|].
+      apply good_bind; [apply read_uvarint_good|]. intros cnt s3 H3.
+      apply header_tags_good; [eapply consumes_small; eassumption|cbn [length]; lia].
+    - intros _ s3 H3. apply good_bind.
+      + eapply good_weaken; [|apply decode_good; [exact Hok|eapply consumes_small; eassumption]]. lia.
+      + intros v s4 _. cbn [good]. apply consumes_refl. }
+  (* the expression of read_response is A followed by discard_all *)
+  match goal with
+  | |- context [bind (read_int 4 s1) ?f] =>
+      assert (Hshape : bind (read_int 4 s1) f
+                       = bind A (fun r s2 => bind (discard_all s2) (fun _ s3 => Ok r s3)))
+  end.
+  { unfold A. destruct (read_int 4 s1) as [corr s2| | | |]; cbn [bind]; try reflexivity.
+    destruct (if flex then _ else _) as [u s3| | | |]; cbn [bind]; try reflexivity.
+    destruct (decode c flex t s3) as [v s4| | | |]; cbn [bind]; reflexivity. }
+  rewrite Hshape. clear Hshape.
+  (* a non-positive size makes the correlation id read fail *)
+  destruct (Z.leb_spec size 0) as [Hneg|Hpos].
+  { assert (HAerr : exists e ra al, A = Err e ra al).
+    { unfold A, read_int, read_n, read_z, s1. cbn [d_remain d_in d_alloc].
+      change (Z.of_nat 4 <=? 0)%Z with false. cbv iota.
+      destruct (Z.leb_spec size 0); [|lia]. cbn [bind]. eauto. }
+    destruct HAerr as [e [ra [al ->]]]. exact I. }
+  destruct A as [r sA| | | |]; cbn [good bind] in *; try exact HA; try exact I.
+  destruct HA as [k [Hk [Hi [Hr [Hnn Ha]]]]]. cbn [d_in d_remain] in *. unfold s1 in Hi, Hr, Hnn, Hk. cbn [d_in d_remain] in *.
+  rewrite skipn_length in Hk.
+  specialize (Hnn ltac:(lia)).
+  unfold discard_all.
+  destruct (Z.leb_spec (d_remain sA) 0) as [Hz|Hrem]; cbn [bind].
+  - exists size. repeat split; try lia.
+    + rewrite Hi. rewrite skipn_skipn'. f_equal. lia.
+  - destruct (Z.ltb_spec (Z.of_nat (length (d_in sA))) (d_remain sA)) as [Hshort|Henough]; [exact I|].
+    cbn [bind d_in d_remain]. rewrite Hi in Henough. rewrite skipn_length, skipn_length in Henough.
+    exists size. repeat split; try lia.
+    rewrite Hi. rewrite !skipn_skipn'. f_equal. lia.
+Qed.
+
+(* C17: a frame cut anywhere before its end never decodes *)
+Corollary cut_never_ok c flex t input :
+  schema_ok flex t = true -> bytes_ok input -> (4 <= length input)%nat ->
+  (Z.of_nat (length input) < 4 + get_bes 4 (firstn 4 input))%Z ->
+  match read_response c flex t input with
+  | Ok _ _ => False | Panic => False | OutOfFuel => False
+  | Err _ _ _ => True | Oom => True
+  end.
+Proof.
+  intros Hok Hb Hl Hcut. pose proof (read_response_total c flex t input Hok Hb) as H.
+  destruct (read_response c flex t input); try exact H; try exact I.
+  destruct H as [size [_ [-> [_ [Hle _]]]]]. lia.
+Qed.
+
+Corollary cut_prefix_never_ok c flex t input :
+  schema_ok flex t = true -> bytes_ok input -> (length input < 4)%nat ->
+  exists e ra al, read_response c flex t input = Err e ra al.
+Proof.
+  intros Hok Hb Hl. unfold read_response, read_int at 1. unfold read_n, read_z. cbn [d_remain d_in d_alloc].
+  change (Z.of_nat 4 <=? 0)%Z with false. change (4 <=? 0)%Z with false. cbv iota.
+  change (Z.min (Z.of_nat 4) 4) with 4%Z.
+  destruct (Z.ltb_spec (Z.of_nat (length input)) 4); [|lia]. cbn [bind]. eauto.
+Qed.
